@@ -169,6 +169,15 @@ CHECKS = {
         "Trusted: mc/refs/vt_ref.py SGR decoding; AttrSpec fields (C18); layout structure (C03) for the exact padding judgement on untrimmed lines.",
         "DESIGN.md §4 C17",
     ),
+    "C04": (
+        MC,
+        "exhaustive enumeration of draw histories on the real raw display Screen whose output is interpreted by a reference VT100/xterm terminal: every frame of the alphabet painted on a cleared screen, every ordered pair of a frame subset drawn consecutively (incremental redraw), draw-clear-draw / draw-same-draw / draw-resize-draw histories, in 20 configurations; every terminal cell compared with the canvas cell after every draw",
+        "rows over 14 cell kinds (blank, letter, double-width, DEC line-drawing x default / palette names incl. one whose mono and high-colour variants add standout/underline / undefined name "
+        "/ AttrSpec objects) at 3x2 (thorough: 4x2, 2x1, 3x3), cursor none/top-left/bottom-right; depth 1/16/88/256/2^24 x back_color_erase x utf-8/iso-8859-1; clauses cells, attrs (visible part "
+        "for blanks), cursor, no-scroll, unknown-sequence, insert-mode-off; HTML back-end: html-text, html-one-cursor, no raise.",
+        "Trusted: mc/refs/vt_ref.py (pending wrap, IRM, SO/SI + G1 designation, EL with bce, SGR); expected renditions via c17.want_for/rendition; a resize makes terminal contents unknown.",
+        "DESIGN.md §4 C04",
+    ),
 }
 
 PENDING_REASON = "check not built yet in this round (see DESIGN.md Appendix B build order); no claim is made"
